@@ -130,6 +130,9 @@ def basecase(fn_zeroth_deriv, domain=DOM_ALL, extras=0):
                 raise ValueError('unexpected keyword args: %s' % kwargs)
             if n < 0:
                 raise ValueError('n must be a nonnegative integer')
+            # array_like points / parameters (lists, tuples) at every order
+            args = tuple(np.asarray(a) if isinstance(a, (list, tuple)) else a
+                    for a in args)
             if n:
                 return f(*args, out=out, n=n)
             elif out is None:
